@@ -274,6 +274,12 @@ class Gen:
         A = r.standard_normal((d, d)) + 1j * r.standard_normal((d, d))
         return A / np.linalg.norm(A, 2)
 
+    def unit_phase(self):
+        """e^{i phi}: exactly on an axis (real positive / negative, imaginary) a third of the time"""
+        if self.p(0.33):
+            return complex(self.ch([1, -1, 1j, -1j]))
+        return complex(np.exp(1j * self.rng.uniform(0, 2 * math.pi)))
+
     def fock_op(self, v, name):
         """JSON op spec for a Fock operation that is a valid request on the current state"""
         r = self.rng
@@ -294,10 +300,10 @@ class Gen:
         if t == "PhaseShift":
             spec["phi"] = self.angle()
         elif t == "Displace":
-            a = r.uniform(0.1, 1.6) * np.exp(1j * r.uniform(0, 2 * math.pi))
+            a = r.uniform(0.1, 1.6) * self.unit_phase()
             spec["alpha"] = [float(a.real), float(a.imag)]
         elif t == "Squeeze":
-            z = r.uniform(0.05, 0.6) * np.exp(1j * r.uniform(0, 2 * math.pi))
+            z = r.uniform(0.05, 0.6) * self.unit_phase()
             spec["zeta"] = [float(z.real), float(z.imag)]
         elif t == "Custom":
             d = v["dims"][name]
